@@ -4,6 +4,8 @@ import re
 import hir as H
 import mir as M
 import rulelib as L
+import symrules as SR
+import sym
 import c01
 import c02
 from c02 import has, only
@@ -22,6 +24,124 @@ SEE = re.compile(r"(serde_json::de::from_slice|from_json|::to_string|Value::as_o
 def claims_pred(field):
     """origin is the `field` of the KB-JWT claims parsed from the *verified* payload"""
     return lambda o: bool(o) and all(x[0] == "call" and ((x[1].endswith("serde_json::de::from_slice") and x[2:3] == (field,)) or (x[1] == ITEM + "::verify" and x[2:4] == ("claims", field))) for x in o)
+
+
+KB_OPQ = (r"decode_compact_serialization$|serde_json::de::from_slice$|determine_hasher$|encoded_digest$|::join$|JwsValidationItem::verify$|Timestamp::from_unix$|Timestamp::now_utc$|"
+          r"DIDUrl::parse$|CoreDocument::resolve_method$|MethodData::public_key_jwk$|VerificationMethod::data$|alloc::fmt::format$")
+
+
+def _kb_jwt_sym(F, r3, kfn):
+    """validate_key_binding_jwt by abstract evaluation: what every accepting path established."""
+    tab = SR.Table(F, kfn, opaque=KB_OPQ, rule=r3, max_paths=8000)
+    OPT, SDJ, HOLDER = SR.param("options"), SR.param("sd_jwt"), SR.param("holder")
+    KBT = ("payload", SR.fld("key_binding_jwt", base=SDJ), "Some", 0)
+    names = ["kb-present", "decode-inputs", "typ", "resolve", "verify", "kb-claims-source", "sd_hash", "hash-payload", "hasher", "nonce", "aud", "iat-source", "iat>=earliest", "iat<=latest", "iat<=now", "returns"]
+    n = 0
+    for q in tab.ok():
+        n += 1
+        why = q.describe()[-220:]
+        if not r3.require(SR.variant(q, SR.fld("key_binding_jwt", base=SDJ)) == "Some", (kfn, "kb-missing"), "success although the SD-JWT carries no key-binding JWT"):
+            continue
+        decs = [e for e in q.calls(r"decode_compact_serialization$") if q.succeeded(e) is True]
+        kb_dec = [e for e in decs if SR.derives(e.args[1], KBT)]
+        sd_dec = [e for e in decs if SR.derives(e.args[1], SR.fld("jwt", base=SDJ))]
+        r3.require(kb_dec and sd_dec and len(kb_dec) + len(sd_dec) == len(decs), (kfn, "decode-inputs"), "tokens decoded are not exactly sd_jwt.jwt and sd_jwt.key_binding_jwt")
+        if not kb_dec or not sd_dec:
+            continue
+        kbroots = [("payload", e.result.t, "Ok", 0) for e in kb_dec]
+        # typ == "kb+jwt"
+        typ_ok = any(a[0] == "eq" and c is True and any(x == ("lit", "kb+jwt") or (x[:1] == ("def",) and x[1].endswith("KB_JWT_HEADER_TYP")) for x in (a[1], a[2])) and any(SR.derives(x, r_) and "typ" in sym.fmt(x) for x in (a[1], a[2]) for r_ in kbroots)
+                     for (a, c, _, _) in q.decisions)
+        r3.require(typ_ok, (kfn, "check", "typ"), "success without `typ == \"kb+jwt\"` of the KB-JWT's protected header — path: …%s" % why)
+        # key lookup
+        rms = [e for e in q.calls(r"resolve_method$") if q.succeeded(e) is True]
+        if r3.require(len(rms) == 1, (kfn, "resolve"), "expected one successful resolve_method on an accepting path"):
+            doc, mid, scope = rms[0].args[:3]
+            r3.require(sym.term(doc) == HOLDER, (kfn, "resolve-doc"), "the key is not resolved in the holder document: %r" % (doc,))
+            r3.require(sym.term(scope) == SR.fld("jws_options", "method_scope", base=OPT), (kfn, "resolve-scope"), "the key is not resolved within options.jws_options.method_scope: %r" % (scope,))
+            OMID = SR.fld("jws_options", "method_id", base=OPT)
+            if SR.variant(q, OMID) == "Some":
+                r3.require(sym.term(mid) == ("payload", OMID, "Some", 0), (kfn, "resolve-id"), "the configured method id is not used verbatim")
+            else:
+                okk = any(q.succeeded(e) is True and SR.derives(mid, e.result.t) and any(SR.derives(e.args[0], r_) for r_ in kbroots) and "kid" in sym.fmt(sym.term(e.args[0])) for e in q.calls(r"DIDUrl::parse$"))
+                r3.require(okk, (kfn, "resolve-id"), "the method id is neither the configured one nor DIDUrl::parse(kid of the KB-JWT's protected header)")
+            # signature
+            vs = [e for e in q.calls(r"JwsValidationItem::verify$") if q.succeeded(e) is True]
+            if r3.require(len(vs) == 1, (kfn, "missing-before-success", "kb_decoded.verify"), "success without a successful JwsValidationItem::verify of the KB-JWT"):
+                v = vs[0]
+                r3.require(any(SR.derives(v.args[0], e.result.t) for e in kb_dec), (kfn, "verify-item"), "the item verified is not the decoded KB-JWT")
+                r3.require(sym.term(v.args[1]) == SR.fld("0"), (kfn, "verify-verifier"), "the validator's verifier is not used")
+                r3.require(SR.derives(v.args[2], rms[0].result.t) and "public_key_jwk" in sym.fmt(sym.term(v.args[2])), (kfn, "verify-key"), "the verifying key is not the resolved holder method's public_key_jwk")
+                verified = ("payload", v.result.t, "Ok", 0)
+                fsl = [e for e in q.calls(r"from_slice$") if q.succeeded(e) is True and SR.derives(e.args[0], ("field", verified, "claims"))]
+                if r3.require(len(fsl) == 1, (kfn, "kb-claims-source"), "the KB-JWT claims are not parsed from the verified DecodedJws.claims"):
+                    kbc = ("payload", fsl[0].result.t, "Ok", 0)
+                    # sd_hash
+                    digs = q.calls(r"encoded_digest$")
+                    okh = False
+                    for d in digs:
+                        for (a, c, _, _) in q.decisions:
+                            if a[0] == "eq" and c is True and any(x == ("field", kbc, "sd_hash") or SR.derives(x, ("field", kbc, "sd_hash")) for x in (a[1], a[2])) and any(SR.derives(x, d.result.t) for x in (a[1], a[2])):
+                                okh = d
+                    if r3.require(bool(okh), (kfn, "check", "sd_hash"), "success without `kb_claims.sd_hash == digest` — path: …%s" % why):
+                        hs, pl = okh.args[0], okh.args[1]
+                        dh = [e for e in q.calls(r"determine_hasher$") if q.succeeded(e) is True and SR.derives(hs, e.result.t)]
+                        r3.require(bool(dh) and any(SR.derives(dh[0].args[1], e.result.t) for e in sd_dec), (kfn, "hasher"), "the hasher is not determined from the claims of sd_jwt.jwt")
+                        pt = sym.term(pl)
+                        tmpl = ("list",) + tuple(("lit", x) for x in (192, 1, 126, 192, 1, 126, 0))
+                        fm = [x for x in sym.subterms(pt) if isinstance(x, tuple) and x[:1] == ("call",) and x[1].endswith("Arguments::new")]
+                        good = False
+                        for x in fm:
+                            args = x[2]
+                            if len(args) == 2 and args[0] == tmpl and args[1][:1] == ("list",) and len(args[1]) == 3:
+                                a0, a1 = args[1][1], args[1][2]
+                                good = SR.derives(a0, SR.fld("jwt", base=SDJ)) and SR.derives(a1, SR.fld("disclosures", base=SDJ)) and ("lit", "~") in list(sym.subterms(a1)) and "join" in sym.fmt(a1)
+                        r3.require(good, (kfn, "hash-payload"), "the digest is not computed over `{sd_jwt.jwt}~{disclosures joined by ~}~`: %s" % sym.fmt(pt)[:200])
+                    # nonce / aud
+                    for opt, err in (("nonce", "InvalidNonce"), ("aud", "AudianceMismatch")):
+                        OT = SR.fld(opt, base=OPT)
+                        ov = SR.variant(q, OT)
+                        if ov == "Some":
+                            okq = any(a[0] == "eq" and c is True and any(SR.derives(x, ("payload", OT, "Some", 0)) for x in (a[1], a[2])) and any(SR.derives(x, ("field", kbc, opt)) for x in (a[1], a[2]))
+                                      for (a, c, _, _) in q.decisions)
+                            r3.require(okq, (kfn, "check", opt), "success with options.%s configured but not compared (equal) with the KB-JWT's %s — path: …%s" % (opt, opt, why))
+                        else:
+                            r3.require(ov == "None", (kfn, "check", opt), "success without examining options.%s" % opt)
+                    # iat window
+                    fu = [e for e in q.calls(r"Timestamp::from_unix$") if q.succeeded(e) is True and SR.derives(e.args[0], ("field", kbc, "iat"))]
+                    if r3.require(len(fu) == 1, (kfn, "iat-source"), "the issuance time checked is not Timestamp::from_unix(kb claims iat)?"):
+                        T = fu[0].result.t
+                        EA, LA = SR.fld("earliest_issuance_date", base=OPT), SR.fld("latest_issuance_date", base=OPT)
+                        ev_, lv_ = SR.variant(q, EA), SR.variant(q, LA)
+                        if ev_ == "Some":
+                            r3.require(_order(q, T, ("payload", EA, "Some", 0)) in (">=",), (kfn, "check", "iat>=earliest"), "success without `iat ≥ options.earliest_issuance_date` — path: …%s" % why)
+                        else:
+                            r3.require(ev_ == "None", (kfn, "check", "iat>=earliest"), "success without examining options.earliest_issuance_date")
+                        if lv_ == "Some":
+                            r3.require(_order(q, T, ("payload", LA, "Some", 0)) in ("<=",), (kfn, "check", "iat<=latest"), "success without `iat ≤ options.latest_issuance_date` — path: …%s" % why)
+                        else:
+                            r3.require(lv_ == "None", (kfn, "check", "iat<=latest"), "success without examining options.latest_issuance_date")
+                            nows = [e.result.t for e in q.calls(r"now_utc$")]
+                            r3.require(any(_order(q, T, nw) == "<=" for nw in nows), (kfn, "check", "iat<=now"), "with no upper bound configured, success without `iat ≤ now` — path: …%s" % why)
+                    out = q.ret.fields[0] if isinstance(q.ret, sym.V) and q.ret.fields else None
+                    r3.require(out is not None and sym.term(out) == kbc, (kfn, "returns"), "the claims returned are not the verified KB-JWT claims: %r" % (out,))
+    for nm in names[:14]:
+        r3.site("KB-JWT obligation `%s` holds on %d accepting path(s)" % (nm, n))
+    r3.require(n > 0 or not tab.paths, (kfn, "single-ok"), "no accepting path found")
+
+
+def _order(q, a, b):
+    """'<=' / '>=' / '<' / '>' established between terms derived from a and b on path q (None if none or contradictory)."""
+    facts = set()
+    for (at, c, _, _) in q.decisions:
+        if at[0] != "lt":
+            continue
+        x, y = at[1], at[2]
+        if SR.derives(x, a) and SR.derives(y, b):
+            facts.add("<" if c else ">=")
+        elif SR.derives(x, b) and SR.derives(y, a):
+            facts.add(">" if c else "<=")
+    return facts.pop() if len(facts) == 1 else None
 
 
 def run(F, R, tier):
@@ -116,149 +236,6 @@ def run(F, R, tier):
 
     # ------------------------------------------------------------------ R3 key-binding JWT
     r3 = R.rule("C16-R3", "T2+T6+T3", "KB-JWT: typ == kb+jwt, key resolved in the holder document within options.jws_options.method_scope, signature ✓, sd_hash == digest over jwt~disclosures~, nonce/aud equalities when configured, iat window; all dominate Ok")
-    h = F.hir(kfn)
-    if r3.anchor(h, kfn):
-        env = H.Env(h)
-        L.require_tried_before_success(r3, F, kfn, [("kb_decoded.verify", ITEM + "::verify"), ("Timestamp::from_unix(iat)", TS + "::from_unix"), ("determine_hasher", re.compile(r"SdObjectDecoder::determine_hasher$"))])
-        L.mir_success_dominates(r3, F, kfn, re.compile(r"JwsValidationItem::verify$"), "JwsValidationItem::verify")
-        tree, infos = L.exit_infos(h)
-        succ = [e for e in infos if L.is_success_exit(e)]
-        r3.require(len(succ) == 1, (kfn, "single-ok"), "expected a single success exit, found %d" % len(succ))
-        KB = claims_pred
-        for e in succ:
-            oo = H.origins(e.node, env)
-            r3.require(bool(oo) and all(o[0] == "call" and o[1].endswith("from_slice") for o in oo), (kfn, "returns"), "the claims returned are not the verified KB-JWT claims")
-            got = set()
-            for c in e.conds:
-                if c[0] != "if" or c[2] is not False:
-                    continue
-                cc = c[1]
-                # typ
-                rel = H.relation(cc, env, lambda o: bool(o) and all(x[0] == "call" and x[1].endswith("decode_compact_serialization") and x[-2:] == ("protected_header", "typ") for x in o),
-                                 lambda o: bool(o) and all(x[0] == "def" and x[1].endswith("KB_JWT_HEADER_TYP") for x in o), accessors=ACC)
-                if rel == "Ne":
-                    got.add("typ")
-                rel = H.relation(cc, env, KB("sd_hash"), lambda o: o == {("call", "sd_jwt_payload::hasher::Hasher::encoded_digest")} or (bool(o) and all(x[0] == "call" and x[1].endswith("encoded_digest") for x in o)), extra=SEE)
-                if rel == "Ne":
-                    got.add("sd_hash")
-                rel = H.relation(cc, env, KB("nonce"), lambda o: only(o, "param", "options", "nonce"), extra=SEE)
-                if rel == "Ne":
-                    got.add("nonce")
-                rel = H.relation(cc, env, KB("aud"), lambda o: only(o, "param", "options", "aud"), extra=SEE)
-                if rel == "Ne":
-                    got.add("aud")
-                is_iat = lambda o: o == {("call", TS + "::from_unix")}
-                rel = H.relation(cc, env, is_iat, lambda o: only(o, "param", "options", "earliest_issuance_date"))
-                if rel == "Lt":
-                    got.add("iat>=earliest")
-                rel = H.relation(cc, env, is_iat, lambda o: only(o, "param", "options", "latest_issuance_date"))
-                if rel == "Gt":
-                    got.add("iat<=latest")
-                rel = H.relation(cc, env, is_iat, lambda o: o == {("call", TS + "::now_utc")})
-                if rel == "Gt":
-                    got.add("iat<=now")
-            r3.site("Ok guarded by the negation of: %s" % sorted(got), e.node.get("sp"))
-        # the optional checks are conditional on the option being configured: use the guard inventory of the function body instead of path conditions
-        inv = {}
-        for n_ in H.walk(H.root(h)):
-            if n_.get("k") != "if":
-                continue
-            cc = H.strip(n_["cond"])
-            oc = H.outcome(n_["then"]) if H.diverges(n_["then"]) else None
-            if oc is None:
-                continue
-            conds = [(c[0], c[2], c[1]) for c in tree.path_conditions(n_) if c[0] == "if" and not c[1].get("exp")]
-            inv.setdefault(oc, []).append((n_, conds))
-        def guard(oc, role_a, role_b, want_rel, opt=None, else_of=None):
-            for n_, conds in inv.get(oc, []):
-                rel = H.relation(n_["cond"], env, role_a, role_b, accessors=ACC, extra=SEE)
-                if rel != want_rel:
-                    continue
-                if opt is None:
-                    if not [c for c in conds if c[1] is True]:
-                        return n_
-                    continue
-                # under `if let Some(x) = &options.<opt>` (and only that)
-                trues = [c for c in conds if c[1] is True]
-                falses = [c for c in conds if c[1] is False and H.strip(c[2]).get("k") == "letexpr"]
-                if else_of is None and len(trues) == 1 and H.strip(trues[0][2]).get("k") == "letexpr" and only(H.origins(H.strip(trues[0][2])["init"], env), "param", "options", opt):
-                    return n_
-                if else_of is not None and not trues and any(only(H.origins(H.strip(c[2])["init"], env), "param", "options", else_of) for c in falses):
-                    return n_
-            return None
-        is_iat = lambda o: o == {("call", TS + "::from_unix")}
-        checks = [
-            ("typ", guard("Err(InvalidHeaderTypValue)", lambda o: bool(o) and all(x[0] == "call" and x[1].endswith("decode_compact_serialization") and x[-1] == "typ" for x in o),
-                          lambda o: bool(o) and all(x[0] == "def" and x[1].endswith("KB_JWT_HEADER_TYP") for x in o), "Ne")),
-            ("sd_hash", guard("Err(InvalidDigest)", claims_pred("sd_hash"), lambda o: bool(o) and all(x[0] == "call" and x[1].endswith("encoded_digest") for x in o), "Ne")),
-            ("nonce", guard("Err(InvalidNonce)", claims_pred("nonce"), lambda o: only(o, "param", "options", "nonce"), "Ne", opt="nonce")),
-            ("aud", guard("Err(AudianceMismatch)", claims_pred("aud"), lambda o: only(o, "param", "options", "aud"), "Ne", opt="aud")),
-            ("iat>=earliest", guard("Err(IssuanceDate)", is_iat, lambda o: only(o, "param", "options", "earliest_issuance_date"), "Lt", opt="earliest_issuance_date")),
-            ("iat<=latest", guard("Err(IssuanceDate)", is_iat, lambda o: only(o, "param", "options", "latest_issuance_date"), "Gt", opt="latest_issuance_date")),
-            ("iat<=now", guard("Err(IssuanceDate)", is_iat, lambda o: o == {("call", TS + "::now_utc")}, "Gt", else_of="latest_issuance_date")),
-        ]
-        for name, node in checks:
-            r3.site("KB-JWT check %s: %s" % (name, "present" if node is not None else "MISSING"), node["sp"] if node is not None else None)
-            r3.require(node is not None, (kfn, "check", name), "the key-binding check `%s` is missing, has the wrong relation/operands, or is nested under an unrelated condition" % name)
-        # all these guards precede the single success exit (structural dominance): they are statements of the main sequence
-        if succ:
-            pre_ids = {id(x) for s in succ[0].pre for x in H.walk(s)}
-            for name, node in checks:
-                if node is not None:
-                    r3.require(id(node) in pre_ids, (kfn, "check-precedes-ok", name), "the `%s` check does not precede the success exit" % name)
-        # iat goes through from_unix(kb claims.iat)
-        for c in H.calls(h, TS + "::from_unix"):
-            oo = H.origins(c["args"][0], env, extra=SEE)
-            r3.require(claims_pred("iat")(oo), (kfn, "iat-source"), "the issuance time checked is not the KB-JWT's iat: %s" % sorted(map(str, oo)))
-        # digest = hasher.encoded_digest(format!("{jwt}~{disclosures}~")) with hasher from the SD-JWT's own claims
-        from c08 import format_calls
-        fc = format_calls(h, env)
-        okd = False
-        for tpl, oo, node in fc:
-            shape = "".join("{}" if t[0] == "arg" else t[1] for t in tpl)
-            if shape == "{}~{}~":
-                a0 = oo[0] if oo else set()
-                a1 = oo[1] if len(oo) > 1 else set()
-                okd = a0 == {("param", "sd_jwt", "jwt")} and bool(a1) and all(o[:3] == ("param", "sd_jwt", "disclosures") or (o[0] == "call" and o[1].endswith("join")) for o in a1)
-                r3.site("hash payload template %r over %s" % (shape, [sorted(map(str, x)) for x in oo]), node["sp"])
-        r3.require(okd, (kfn, "hash-payload"), "the digest is not computed over `{sd_jwt.jwt}~{disclosures joined by ~}~`")
-        jn = [n_ for n_ in H.walk(H.root(h)) if n_.get("k") == "mcall" and n_["name"] == "join"]
-        r3.require(len(jn) == 1 and H.literals(jn[0]["args"][0]) == ["~"] and only(H.origins(jn[0]["recv"], env, extra=re.compile(r"iter$")), "param", "sd_jwt", "disclosures"), (kfn, "disclosure-join"), "disclosures are not joined with '~' in the presented order")
-        for c in H.calls(h, re.compile(r"Hasher::encoded_digest$")):
-            a = H.call_args(c)
-            r3.require(bool(H.origins(a[0], env)) and all(o[0] == "call" and o[1].endswith("determine_hasher") for o in H.origins(a[0], env)), (kfn, "hasher"), "the hasher is not the one named in the SD-JWT claims (determine_hasher)")
-        for c in H.calls(h, re.compile(r"SdObjectDecoder::determine_hasher$")):
-            oo = H.origins(H.call_args(c)[1], env, extra=SEE, accessors=ACC)
-            r3.require(bool(oo) and all(o[0] == "call" and o[1].endswith("decode_compact_serialization") for o in oo), (kfn, "hasher-claims"), "the hasher is not determined from the claims of sd_jwt.jwt")
-        # key lookup in the holder document with the configured scope
-        for c in H.calls(h, CORE + "::resolve_method"):
-            a = H.call_args(c)
-            o = [H.origins(x, env, extra=re.compile(r"DIDUrl::parse$|AsRef::as_ref$"), accessors=ACC) for x in a]
-            r3.site("resolve_method(doc ← %s, id ← %s, scope ← %s)" % tuple(sorted(map(str, x)) for x in o), c["sp"])
-            r3.require(o[0] == {("param", "holder")}, (kfn, "resolve-doc"), "the key is not resolved in the holder document")
-            r3.require(o[2] == {("param", "options", "jws_options", "method_scope")}, (kfn, "resolve-scope"), "the key is not resolved within options.jws_options.method_scope")
-            r3.require(all(x[:4] == ("param", "options", "jws_options", "method_id") or (x[0] == "call" and x[1].endswith("decode_compact_serialization") and x[-1] == "kid") for x in o[1]) and o[1], (kfn, "resolve-id"), "the method id is not options.jws_options.method_id or the KB-JWT's protected kid: %s" % sorted(map(str, o[1])))
-        for c in H.calls(h, ITEM + "::verify"):
-            a = H.call_args(c)
-            o0 = H.origins(a[0], env, extra=re.compile(r"as_bytes$|::clone$"))
-            o1 = H.origins(a[1], env)
-            o2 = H.origins(a[2], env, extra=re.compile(r"(resolve_method|public_key_jwk|::data|AsRef::as_ref)$"))
-            r3.site("verify(item ← %s, verifier ← %s, key ← %s)" % (sorted(map(str, o0)), sorted(map(str, o1)), sorted(map(str, o2))[:3]), c["sp"])
-            r3.require(o0 == {("call", "identity_jose::jws::decoder::Decoder::decode_compact_serialization")}, (kfn, "verify-item"), "the item verified is not the decoded KB-JWT")
-            r3.require(o1 == {("param", "self", "0")}, (kfn, "verify-verifier"), "the validator's verifier is not used")
-            r3.require(has(o2, "param", "holder"), (kfn, "verify-key"), "the verifying key does not come from the holder document")
-        dc = H.calls(h, re.compile(r"Decoder::decode_compact_serialization$"))
-        srcs = [sorted(map(str, H.origins(H.call_args(c)[1], env, extra=re.compile(r"as_bytes$|::clone$")))) for c in dc]
-        r3.site("decode_compact_serialization inputs: %s" % srcs)
-        srcs = [[x for x in s_ if x != "('other', 'unit')"] for s_ in srcs]
-        r3.require(all(s in (["('param', 'sd_jwt', 'jwt')"], ["('param', 'sd_jwt', 'key_binding_jwt', 'Some', '0')"], ["('param', 'sd_jwt', 'key_binding_jwt')"]) for s in srcs), (kfn, "decode-inputs"), "a token other than sd_jwt.jwt / sd_jwt.key_binding_jwt is decoded: %s" % srcs)
-        # KB-JWT claims parsed from the verified payload
-        for c in H.calls(h, re.compile(r"serde_json::de::from_slice$")):
-            oo = H.origins(c["args"][0], env, accessors=ACC)
-            if any(o[0] == "call" and o[1] == ITEM + "::verify" for o in oo):
-                r3.site("KB claims parsed from verified payload", c["sp"])
-        kb_src = [H.origins(c["args"][0], env, accessors=ACC) for c in H.calls(h, re.compile(r"serde_json::de::from_slice$"))]
-        r3.require(any(o == {("call", ITEM + "::verify", "claims")} for o in kb_src), (kfn, "kb-claims-source"), "the KB-JWT claims are not parsed from the verified DecodedJws.claims: %s" % [sorted(map(str, o)) for o in kb_src])
-        # missing KB-JWT is an error
-        r3.require("Err(MissingKeyBindingJwt)" in [e.outcome for e in infos], (kfn, "missing-kb"), "a missing key-binding JWT is not reported as MissingKeyBindingJwt")
+    if r3.anchor(F.hir(kfn), kfn):
+        _kb_jwt_sym(F, r3, kfn)
     r3.floor(14)
